@@ -16,7 +16,7 @@ enum PcapTsFormat {
     NanoSeconds,
 }
 
-#[derive(Debug)]
+#[derive(Debug, Clone)]
 pub struct PcapGlobalHeader {
     magic_number: u32,
     version_major: u16,
@@ -260,8 +260,8 @@ impl Pcap {
     pub fn get_magic_number(&self) -> Rc<Object> {
         Rc::new(Object::Integer(self.header.borrow().magic_number as i64))
     }
-    pub fn get_magic_number_raw(&self) -> u32 {
-        self.header.borrow().magic_number
+    pub fn get_header(&self) -> PcapGlobalHeader {
+        self.header.borrow().clone()
     }
     pub fn get_version_major(&self) -> Rc<Object> {
         Rc::new(Object::Integer(self.header.borrow().version_major as i64))
@@ -392,8 +392,15 @@ impl Pcap {
 
     /// Write global header to a newly created pcap file
     pub fn new_with_magic(file: Rc<FileHandle>, magic: u32) -> io::Result<Self> {
+        Self::new_with_header(file, PcapGlobalHeader::new(magic))
+    }
+
+    /// Write the given global header to a newly created pcap file
+    pub fn new_with_header(
+        file: Rc<FileHandle>,
+        global_header: PcapGlobalHeader,
+    ) -> io::Result<Self> {
         // Write the pcap global header to the file
-        let global_header = PcapGlobalHeader::new(magic);
         let bytes: Vec<u8> = (&global_header).into();
         match file.as_ref() {
             FileHandle::Writer(writer) => {
